@@ -250,6 +250,8 @@ pub struct SModel {
     pub ok_results: AtomicU64,
     pub slice_open_digest: Option<u64>,
     pub empty_shdr_table: bool,
+    /// fingerprints of the distinct open-stream states reached (evidence: distinct non-trivial)
+    pub seen: std::sync::Mutex<std::collections::HashSet<u64>>,
 }
 
 struct Replayed {
@@ -275,6 +277,7 @@ impl SModel {
             ok_results: AtomicU64::new(0),
             slice_open_digest,
             empty_shdr_table: empty,
+            seen: std::sync::Mutex::new(std::collections::HashSet::new()),
         }
     }
 
@@ -461,6 +464,7 @@ impl SModel {
                 }
                 if stream_ok {
                     self.ok_results.fetch_add(1, Ordering::Relaxed);
+                    self.seen.lock().unwrap().insert(fp as u64);
                 }
                 Some(SState { hist, fp, phase, bad, faulted: state.faulted || fault_script })
             }
@@ -485,6 +489,7 @@ impl SModel {
                     self.ok_results.fetch_add(1, Ordering::Relaxed);
                 }
                 let fp = fingerprint(s, &r.env);
+                self.seen.lock().unwrap().insert(fp as u64 ^ (state.faulted || fault_script) as u64);
                 if let Some(m) = panic_msg {
                     bad = Some(format!("panic in {:?}: {}", op, m));
                 } else {
@@ -562,6 +567,37 @@ impl Model for SModel {
     fn properties(&self) -> Vec<Property<Self>> {
         vec![Property::always("holds", |_: &SModel, s: &SState| s.bad.is_none())]
     }
+}
+
+/// Independent 40-line BFS over the same transition function: cross-checks the search engine
+/// (unique states and generated transitions must agree with stateright's for fixpoint runs).
+pub fn handrolled_bfs(m: &SModel) -> (usize, u64, bool) {
+    use std::collections::{HashSet, VecDeque};
+    let mut seen: HashSet<SState> = HashSet::new();
+    let mut q: VecDeque<SState> = VecDeque::new();
+    for s in m.init_states() {
+        seen.insert(s.clone());
+        q.push_back(s);
+    }
+    let mut transitions = 0u64;
+    let mut bad = false;
+    while let Some(s) = q.pop_front() {
+        if s.bad.is_some() {
+            bad = true;
+            continue;
+        }
+        let mut acts = Vec::new();
+        m.actions(&s, &mut acts);
+        for a in acts {
+            if let Some(n) = m.next_state(&s, a) {
+                transitions += 1;
+                if seen.insert(n.clone()) {
+                    q.push_back(n);
+                }
+            }
+        }
+    }
+    (seen.len(), transitions, bad)
 }
 
 // ------------------------------------------------------------------ the Space wrapper
@@ -647,8 +683,19 @@ impl Space for StreamSpace {
             out.count("depth_capped_images");
         } else {
             out.count("fixpoint_images");
+            // engine cross-check on the small fixpoint graphs
+            if c.label.starts_with("s_phdrs") && chk.discovery("holds").is_none() {
+                let m2 = SModel::new((c.make)(c.enc), self.which, c.dev);
+                let (states, _tr, bad) = handrolled_bfs(&m2);
+                if states != chk.unique_state_count() || bad {
+                    panic!("search engines disagree on {}: stateright {} unique states, hand-rolled BFS {} (bad={})", c.label, chk.unique_state_count(), states, bad);
+                }
+                out.count_n("crosscheck_handrolled_bfs_states_equal_stateright", states as u64);
+            }
         }
-        out.nontrivial(chk.unique_state_count() as u64 ^ (idx << 40) ^ m.ok_results.load(Ordering::Relaxed) << 20);
+        for fp in m.seen.lock().unwrap().iter() {
+            out.nontrivial(*fp ^ (idx << 56));
+        }
         if let Some(path) = chk.discovery("holds") {
             let last = path.last_state().clone();
             let acts: Vec<Act> = path.into_actions();
